@@ -40,6 +40,16 @@ def dbl(name, inv, cfg, back=False):
     def conv(t):
         t = t.replace("hpInv(s)", inv + "(s)").replace("hashParser", name).replace("HPConfig", cfg)
         t = t.replace("s.table[*]", "s.h1.table[*], s.h2.table[*]")
+        # clauses about the table contents exist once per table
+        lines = []
+        for ln in t.split("\n"):
+            if "s.table[t]" in ln:
+                lab = re.search(r"\] (\w+):", ln).group(1)
+                for k in ("1", "2"):
+                    lines.append(ln.replace("] %s:" % lab, "] %s%s:" % (lab, k)).replace("s.table", "s.h%s.table" % k))
+            else:
+                lines.append(ln)
+        t = "\n".join(lines)
         t = t.replace("s.inputLen >= 3", "s.h1.inputLen >= 3")
         return t
     hsrc, l0src = h, l0
@@ -71,9 +81,10 @@ def dbl(name, inv, cfg, back=False):
         t = t.replace("decreases [C03,C16] inputEnd - i", "decreases [C03,C16] %s - i" % end)
         return t
     ext = conv(l1)
-    re2 = "  invariant rehash: i < j && b <= e2\n  decreases [C03,C16] b - j\n"
-    re3 = "  invariant rehash: i < j && b <= e1\n  decreases [C03,C16] b - j\n"
-    re6 = "  invariant rehash: 0 <= j && b <= e1\n  decreases [C03,C16] b - j\n"
+    nm = "".join(conv(ln + "\n") for ln in l2.split("\n") if "nomargin" in ln)
+    re2 = "  invariant rehash: i < j && b <= e2\n" + nm + "  decreases [C03,C16] b - j\n"
+    re3 = "  invariant rehash: i < j && b <= e1\n" + nm + "  decreases [C03,C16] b - j\n"
+    re6 = "  invariant rehash: 0 <= j && b <= e1\n" + nm + "  decreases [C03,C16] b - j\n"
     return (hh + "loop 0:\n" + main_loop(l0src, "e2") + "loop 1:\n" + ext + "loop 2:\n" + re2 + "loop 3:\n" + re3 +
             "loop 4:\n" + main_loop(l0src, "e1") + "loop 5:\n" + ext + "loop 6:\n" + re6 + "@*/\n")
 
